@@ -787,12 +787,59 @@ let make_m1 (params : string list) : machine =
             let s', x = m_step !st o in
             st := s';
             show_out x in
+  (* the memoising machine (Memo.memo_step: node.hash, hashWithCount, saveNewNodes,
+     resetUnsavedHashes) runs alongside from the start of the case for as long as the same tree
+     object is written, hashed and committed; what it returns for WorkingHash / SaveVersion must
+     be what M1 returns (the conclusion of MemoFacts.run_refines evaluated on this history; M1's
+     answer is the one compared with the implementation). With "ivlate" the harness sets the
+     initial version through SetInitialVersion after the first writes and a WorkingHash. *)
+  let cfgl = String.split_on_char ',' (header_param params "cfg" "") in
+  let ivlate = List.mem "ivlate=true" cfgl && iv <> "-" in
+  let mm : memo_state option ref =
+    ref (if is_legacy then None else Some (memo_init (if iv = "-" || ivlate then None else Some (z_of_string iv)))) in
+  let iv_pending = ref ivlate in
+  let mdo (o : mop) : mout option =
+    match !mm with
+    | None -> None
+    | Some s -> let s', x = memo_step_sha s o in mm := Some s'; Some x in
+  let memo_mirror (toks : string list) (r : string) : string =
+    if !mm = None then r
+    else begin
+      (match toks with
+       | "set" :: _ | "rm" :: _ -> ()
+       | _ -> if !iv_pending then begin
+                iv_pending := false;
+                ignore (mdo MWorkingHash);
+                (* VERIF_MEMO_NORESET: self-test of the mirror (the unrepaired SetInitialVersion) *)
+                ignore (mdo (MSetIV (z_of_string iv, Sys.getenv_opt "VERIF_MEMO_NORESET" = None)))
+              end);
+      match toks with
+      | [ "set"; k; v ] -> if v <> "-" then ignore (mdo (MSet (bytes_of_tok k, bytes_of_tok v))); r
+      | [ "rm"; k ] -> ignore (mdo (MRemove (bytes_of_tok k))); r
+      | [ "whash" ] | [ "r"; "w"; "hash" ] ->
+          (match mdo MWorkingHash with
+           | Some (MOHash h) when "b:" ^ hex_of_bytes h <> r -> "modelfail:memo machine working hash " ^ hex_of_bytes h ^ " M1 " ^ r
+           | _ -> r)
+      | "r" :: "w" :: ("proof" | "gproof" | "proofbytes") :: _ | [ "touch"; "w"; _ ] | "r" :: "w" :: "touch" :: _ ->
+          ignore (mdo MWorkingHash); r
+      | [ "save" ] | [ "wsave" ] | [ "ctab"; "save" ] ->
+          (match mdo MSave with
+           | Some (MOSaved (h, v)) ->
+               let m = Printf.sprintf "(b:%s,i:%s)" (hex_of_bytes h) (string_of_z v) in
+               if toks = [ "save" ] && m <> r then "modelfail:memo machine save " ^ m ^ " M1 " ^ r else r
+           | Some MOOutOfDomain | None -> mm := None; r
+           | Some _ -> r)
+      | "r" :: _ | [ "avail" ] | [ "latest" ] | [ "wver" ] | [ "hash" ] | [ "davail" ] | [ "isempty" ] | [ "fastflags" ] | [ "dbstring" ]
+      | "vexists" :: _ | "getv" :: _ | "audit" :: _ | "changes" :: _ | "prune" :: _ | "wprune" :: _ | "expimp" :: _
+      | "cost" :: _ | [ "costsweep" ] | "pintest" :: _ | "x" :: _ -> r
+      | _ -> mm := None; r (* the tree object is replaced, reloaded or rolled back: outside Memo's machine *)
+    end in
   { step = (fun toks ->
         prev := !st;
         let r = step1 toks in
         (* out-of-contract operations raise above; a failed model step changes nothing below *)
         if Sys.getenv_opt "VERIF_NOFMIRROR" = None then fmirror toks;
-        r);
+        memo_mirror toks r);
     classify = (fun toks model impl ->
         let rec strip = function ("fault" | "cost") :: (("r" :: _) as rest) -> strip rest | l -> l in
         match strip toks with
